@@ -160,6 +160,19 @@ pub fn run(ctx: &Ctx) -> i32 {
                 files = vec![("main.s".to_string(), t)];
                 acc.count("join_family_programs", 1);
             }
+            if k % 4 == 2 && k % 8 == 2 {
+                // a function entry with several unusual predecessors at once: it is the first line of the
+                // program, it is called, and one to three plain jumps lead to it (all their diagnostics
+                // sit on the entry, only their order can differ)
+                let jumps = 1 + rng.below(3);
+                let mut t = String::from("# entry\nstart:\n    addi a0, a0, -1\n    bnez a0, again\n    ret\nagain:\n    jal start\n");
+                for j in 0..jumps {
+                    t.push_str(&format!("    beqz a0, skip_{j}\n    j start\nskip_{j}:\n"));
+                }
+                t.push_str("    j start\n");
+                files = vec![("main.s".to_string(), t)];
+                acc.count("several_predecessors_family_programs", 1);
+            }
             acc.evaluations += 1;
             let replay = json!({"files": files});
             // ---------- library, fresh threads
